@@ -18,7 +18,7 @@ package hmac
 // mac_of(s, key, data): the MAC this strategy computes: HMAC (configured hash constructor, SHA-512/256 by default) keyed with
 // the first 32 bytes of key.  validates(s, key, t): t is "k.sig" with both parts base64url, and the COMPLETE decoded
 // signature equals the MAC of the decoded k.  authentic(s, t): validates under the global secret or a rotated one.
-//@ spec func hmacsig(token string) string
+//@ spec func opaque hmacsig(token string) string = (len(strings.Split(token, ".")) == 2) ? strings.Split(token, ".")[1] : ""
 //@ spec func hasher_of(s *HMACStrategy) any = (s.Config.GetHMACHasher(nil) == nil) ? sha512.New512_256 : s.Config.GetHMACHasher(nil)
 //@ spec func mac_of(s *HMACStrategy, key []byte, data []byte) []byte = hmacsum(hasher_of(s), padcopy(key, 32), bcat(nobytes(), data), nilbytes())
 //@ spec func validates(s *HMACStrategy, key []byte, token string) bool = len(key) >= 32 && cut_ok(token, ".") && cut_before(token, ".") != "" && cut_after(token, ".") != "" && b64dec_ok(b64, cut_after(token, ".")) && b64dec_ok(b64, cut_before(token, ".")) && str(mac_of(s, key, b64dec(b64, cut_before(token, ".")))) == str(b64dec(b64, cut_after(token, ".")))
@@ -35,10 +35,10 @@ package hmac
 //@   ensures [C06.mac-verified-in-full] (err == nil) == validates(c, secret, token)
 //@   ensures [C06.mismatch-classified] err != nil && len(secret) >= 32 && cut_ok(token, ".") && cut_before(token, ".") != "" && cut_after(token, ".") != "" && b64dec_ok(b64, cut_after(token, ".")) && b64dec_ok(b64, cut_before(token, ".")) ==> eis(err, fosite.ErrTokenSignatureMismatch)
 
+// Signature: the second of exactly two dot-separated parts, "" otherwise (this is the definition of hmacsig).
 //@ func (*HMACStrategy).Signature(s, token)
-//@   trusted
 //@   pure
-//@   ensures result == hmacsig(token)
+//@   ensures [C06.signature-is-second-of-two-parts] result == hmacsig(token)
 
 // Validate: accepted only if the token validates under the configured global secret or one of the rotated secrets.
 //@ func (*HMACStrategy).Validate
